@@ -25,7 +25,7 @@ META = {
              "passes and the outputs compared gate by gate (names, wires, dyadic angles). "
              "Layer 2 (differential, every pass of the property): random circuits on 1-4 wires with exactly representable "
              "angles are transformed by the REAL pass on a fresh tape. Every run: the float unitaries of input and output (all columns) "
-             "must agree up to one global phase at 1e-8. Exact route (all exactly representable runs in the thorough tier up to a cap, "
+             "must agree up to one global phase at 5e-7 (fuse_rot_angles' arccos loses half the digits near the identity). Exact route (all exactly representable runs in the thorough tier up to a cap, "
              "a round-robin subset over the passes in the quick tier, changed circuits first): input and output, each prefixed by 2-3 "
              "state preparations (a generic product state, a random basis/Hadamard state, |0..0>), are simulated exactly by vm_compute "
              "over Q(zeta_8) (Lin/ExactSim.v) and must satisfy |<in|out>| = 1 with the same phase for all preparations (1e-9). "
@@ -51,6 +51,7 @@ META = {
 }
 
 UNIT = 2 ** 48
+FLOAT_TOL = 5e-7      # arccos in fuse_rot_angles is conditioned like sqrt(eps) ~ 1.5e-8 near the identity (documented instability)
 
 
 def g_gate(g):
@@ -189,6 +190,7 @@ def diff_layer(ctx, runs, max_exact):
         corpus = (r.get("opts") or {}).get("corpus")
         if r["status"] == "raised":
             key = {"variable-arity-adjoint": "finding:cancel_inverses_variable_arity_raises",
+                   "pattern-nonconsecutive-wires-raises": "finding:pattern_matching_nonconsecutive_wires_raises",
                    "fusion-single-wire-barrier": "finding:single_qubit_fusion_single_wire_barrier_raises"}.get(corpus, "raised:" + key_base)
             ctx.violation(key, {"pass": r["pass"], "options": r["opts"], "labels": r["labels"], "ops": r["ops_in"], "exception": r["detail"], "where": r.get("where")},
                           what=f"{r['pass']} raised {r['detail'][:80]} on a valid circuit")
@@ -203,7 +205,7 @@ def diff_layer(ctx, runs, max_exact):
         verdict, info = True, {}
         d = r.get("num_dist")
         info = {"float_distance_up_to_phase": d, "numeric_error": r.get("num_err")}
-        if d is None or not (d <= 1e-8):
+        if d is None or not (d <= FLOAT_TOL):
             verdict = False
         if ri in by_run:
             sts = by_run[ri]
@@ -218,6 +220,7 @@ def diff_layer(ctx, runs, max_exact):
             info["why_not_exact"] = r.get("notex")
         if not verdict:
             key = {"zx-wire-order": "finding:zx_wire_relabel:" + r["pass"],
+                   "pattern-nonconsecutive-wires": "finding:pattern_matching_nonconsecutive_wires_wrong_circuit",
                    "arity-mismatch-cancels": "finding:cancel_inverses_arity_mismatch_cancels"}.get(corpus, "diff:" + key_base)
             ctx.violation(key, {"pass": r["pass"], "options": r["opts"], "labels": r["labels"], "mode": r["mode"],
                                 "ops_in": r["ops_in"], "ops_out": r["ops_out"], **info},
@@ -228,13 +231,13 @@ def diff_layer(ctx, runs, max_exact):
 def run(ctx):
     ctx.coq_props(extra_static=["Lin/ExactSim.vo"])
     quick = ctx.tier == "quick"
-    n_drv, n_diff = (600, 280) if quick else (5000, 1500)
+    n_drv, n_diff = (600, 280) if quick else (3000, 1200)
     t0 = time.time()
     out = ctx.run_impl("c17_impl.py", {"seed": ctx.seed, "tier": ctx.tier, "n_drv": n_drv, "n_diff": n_diff, "npreps": 2 if quick else 3}, timeout=3000)
     t1 = time.time()
     usable, skipped, hist = driver_layer(ctx, out["drivers"])
     t2 = time.time()
-    per, nsim = diff_layer(ctx, out["diff"], 40 if quick else 350)
+    per, nsim = diff_layer(ctx, out["diff"], 40 if quick else 220)
     ctx.notes.append(f"timing: impl {t1 - t0:.1f}s, driver tie {t2 - t1:.1f}s, exact differential {time.time() - t2:.1f}s")
     ctx.coverage.update({
         "evaluations": len(usable) + len(out["diff"]),
